@@ -25,16 +25,19 @@ def _args(c):
     return [norm(ast.unparse(a)) for a in c.args], {k.arg: norm(ast.unparse(k.value)) for k in c.keywords}
 
 
+_FL_NAMES = ("self._get_file_list", "cls._get_file_list", "DigitalRFReader._get_file_list")      # method / classmethod / static spelling
+
+
 def _returns_file_list(h):
     """h returns the value of a self._get_file_list(...) call (directly or through one local)."""
     names = set()
     for n in pyfront.walk_no_nested(h):
-        if isinstance(n, ast.Assign) and isinstance(n.value, ast.Call) and pyfront.call_name(n.value) == "self._get_file_list" \
+        if isinstance(n, ast.Assign) and isinstance(n.value, ast.Call) and pyfront.call_name(n.value) in _FL_NAMES \
                 and isinstance(n.targets[0], ast.Name):
             names.add(n.targets[0].id)
     for n in pyfront.walk_no_nested(h):
         if isinstance(n, ast.Return) and n.value is not None:
-            if isinstance(n.value, ast.Call) and pyfront.call_name(n.value) == "self._get_file_list":
+            if isinstance(n.value, ast.Call) and pyfront.call_name(n.value) in _FL_NAMES:
                 return True
             if isinstance(n.value, ast.Name) and n.value.id in names:
                 return True
@@ -463,9 +466,30 @@ def r8_no_history_state(repo=None):
                        and isinstance(fv.parents.get(x).value, ast.Name) and fv.parents.get(x).value.id == other[0].id
                        for st in branch for x in ast.walk(st)):
                     miss.append((n, branch, keys[0]))
+    in_miss = set()
+    if not miss:
+        # the same test with an early exit (`if <file> == self.<remembered file>: return` in a helper that was inlined): the miss
+        # branch is the region of the CFG that can only be entered over the "differs" edge of the comparison
+        for cn in g.nodes:
+            if cn.kind != "cond" or not isinstance(cn.ast, ast.Compare) or len(cn.ast.ops) != 1 or not isinstance(cn.ast.ops[0], (ast.NotEq, ast.Eq)):
+                continue
+            sides = [cn.ast.left, cn.ast.comparators[0]]
+            keys = [self_attr(s_) for s_ in sides if self_attr(s_)]
+            other = [s_ for s_ in sides if isinstance(s_, ast.Name)]
+            if len(keys) != 1 or len(other) != 1:
+                continue
+            differs = "T" if isinstance(cn.ast.ops[0], ast.NotEq) else "F"
+            free = g.reach([g.entry.id], edge_filter=lambda a_, b_, lab, cn=cn, differs=differs: not (a_ == cn.id and lab == differs))
+            region = [n for n in g.nodes if n.id not in free and n.ast is not None]
+            sets_key = any(isinstance(n.ast, ast.Assign) and any(self_attr(t) == keys[0] for t in n.ast.targets) and isinstance(n.ast.value, ast.Name)
+                           and n.ast.value.id == other[0].id for n in region)
+            if sets_key:
+                miss.append((cn.ast, [], keys[0]))
+                for n in region:
+                    for x in _own(n):
+                        in_miss.add(id(x))
     if not miss:
         raise AnalysisError("%s: cache-miss branch (`if <file> != self.<remembered file>: ... self.<remembered file> = <file>`) not found" % q)
-    in_miss = set()
     for n, branch, key in miss:
         for st in branch:
             for x in ast.walk(st):
@@ -638,8 +662,98 @@ def r9_directory_names_are_not_patterns(repo=None, rid="C08.R9", modules=("digit
     return r
 
 
+def r10_last_answer_keyed_by_all_arguments(repo=None):
+    """'the answers of read, get_continuous_blocks and read_vector are coherent': an answer (or part of one, such as the list of
+    candidate files) that a reader keeps from the previous query may be used again only under a key that holds everything it was
+    computed from.  Single-entry memo `if K != self.<key>: self.<value> = V; self.<key> = K` in the public readers' methods
+    (private helpers inlined): on the CFG, the "differs" edge of the comparison guards the stores; the parameters in the backward
+    slice of V (flow-insensitive def-use over locals, a local depending on what it was computed from, loop targets on their
+    iterables) must all be in the slice of K.  Attributes of self are state of the object, not arguments of the query."""
+    r = Rule("C08.R10", "what a reader keeps from the last query is keyed by every argument it was computed from")
+    m = pyfront.mod("digital_rf_hdf5", repo)
+    n_methods = 0
+    n_memos = 0
+    for cls in (RD, TL):
+        for name, fn0 in m.methods(cls).items():
+            if name.startswith("__"):
+                continue
+            q = "%s.%s" % (cls, name)
+            try:
+                fv = m.flat(q)
+            except AnalysisError:
+                continue
+            f = fv.fn()
+            n_methods += 1
+            if not any(isinstance(x, ast.Attribute) and isinstance(x.ctx, ast.Store) and isinstance(x.value, ast.Name) and x.value.id == "self" for x in ast.walk(f)):
+                continue
+            g = fv.cfg()
+            params = {a.arg for a in f.args.args + f.args.kwonlyargs + [x for x in (f.args.vararg, f.args.kwarg) if x is not None] if a.arg != "self"}
+            deps = {}
+            for a in ast.walk(f):
+                if isinstance(a, ast.Assign):
+                    used = {x.id for x in ast.walk(a.value) if isinstance(x, ast.Name)}
+                    for t in a.targets:
+                        for x in ast.walk(t):
+                            if isinstance(x, ast.Name) and isinstance(x.ctx, ast.Store):
+                                deps.setdefault(x.id, set()).update(used)
+                elif isinstance(a, (ast.For, ast.comprehension)):
+                    used = {x.id for x in ast.walk(a.iter) if isinstance(x, ast.Name)}
+                    for x in ast.walk(a.target):
+                        if isinstance(x, ast.Name):
+                            deps.setdefault(x.id, set()).update(used)
+
+            def closure(expr):
+                work = [x.id for x in ast.walk(expr) if isinstance(x, ast.Name)]
+                seen = set()
+                while work:
+                    v = work.pop()
+                    if v in seen or v == "self":
+                        continue
+                    seen.add(v)
+                    work.extend(deps.get(v, ()))
+                return seen
+            for cn in g.nodes:
+                if cn.kind != "cond" or not isinstance(cn.ast, ast.Compare) or len(cn.ast.ops) != 1 or not isinstance(cn.ast.ops[0], (ast.Eq, ast.NotEq)):
+                    continue
+                sides = [cn.ast.left, cn.ast.comparators[0]]
+                keyside = [s_ for s_ in sides if isinstance(s_, ast.Attribute) and isinstance(s_.value, ast.Name) and s_.value.id == "self"]
+                other = [s_ for s_ in sides if s_ not in keyside]
+                if len(keyside) != 1 or len(other) != 1:
+                    continue
+                kattr = keyside[0].attr
+                differs = "T" if isinstance(cn.ast.ops[0], ast.NotEq) else "F"
+                free = g.reach([g.entry.id], edge_filter=lambda a_, b_, lab, cn=cn, differs=differs: not (a_ == cn.id and lab == differs))
+                region = [n for n in g.nodes if n.id not in free and n.ast is not None]
+                sets_key = [n for n in region if isinstance(n.ast, ast.Assign) and any(
+                    isinstance(t, ast.Attribute) and isinstance(t.value, ast.Name) and t.value.id == "self" and t.attr == kattr for t in n.ast.targets)]
+                if not sets_key:
+                    continue
+                kdeps = closure(other[0]) | closure(sets_key[0].ast.value)
+                for n in region:
+                    if not isinstance(n.ast, ast.Assign) or n in sets_key:
+                        continue
+                    for t in n.ast.targets:
+                        if isinstance(t, ast.Attribute) and isinstance(t.value, ast.Name) and t.value.id == "self":
+                            n_memos += 1
+                            need = sorted((closure(n.ast.value) & params) - kdeps)
+                            site = "%s:%s %s self.%s (key self.%s)" % (m.rel, n.line, q, t.attr, kattr)
+                            if need:
+                                r.violation(m.rel, q, "self.%s = %s under `%s`" % (t.attr, norm(ast.unparse(n.ast.value))[:50], norm(ast.unparse(cn.ast))[:50]),
+                                            "the value kept from the last query depends on %s, which the key does not hold: a later query "
+                                            "that differs only in that argument (another channel with other cadences, the same sample "
+                                            "range) is answered from the previous one's value" % ", ".join("`%s`" % x for x in need), line=n.line)
+                            else:
+                                r.ok(site, "depends on nothing but the key (and the object's own attributes)")
+    if n_methods < 10:
+        raise AnalysisError("only %d reader methods analysed" % n_methods)
+    if n_memos < 1:
+        raise AnalysisError("no single-entry memo found (the open-file cache of the per-directory reader was confirmed on the reference tree)")
+    r.guard(1)
+    return r
+
+
 def rules(repo=None):
-    return [lambda: r9_directory_names_are_not_patterns(repo), lambda: r8_no_history_state(repo), lambda: r1_one_pipeline(repo), lambda: r2_vector_guards(repo), lambda: r3_guard_on_sample_axis(repo),
+    return [lambda: r10_last_answer_keyed_by_all_arguments(repo), lambda: r9_directory_names_are_not_patterns(repo), lambda: r8_no_history_state(repo), lambda: r1_one_pipeline(repo), lambda: r2_vector_guards(repo), lambda: r3_guard_on_sample_axis(repo),
             lambda: c01.r3_exact_lookup(repo, rid="C08.R4"), lambda: r5_subchannel_column(repo),
             lambda: r6_lossless_conversion(repo), lambda: c01.r6_exact_index_use(repo, rid="C08.R7")]
 
@@ -655,7 +769,9 @@ EXPLANATION = (
     'int(). R8: every attribute _read stores is either loaded in the cache-miss branch keyed by the file name or never '
     'read before it is stored in the same call (no query-history state).  R9: every variable component of a path given to'
     ' glob.glob in the reader modules is wrapped in glob.escape (a directory named ch[1] is not a pattern). Does NOT '
-    'decide the split/merge relation or bounds arithmetic.')
+    'decide the split/merge relation or bounds arithmetic. R10: single-entry memos of the reader classes (`if K != '
+    'self.key: self.value = V; self.key = K`, found as the CFG region behind the differs edge of the comparison, helpers '
+    'inlined): every parameter in the def-use closure of V is in the closure of K.')
 TECHNIQUE = ('Python ast; sibling comparison of the data and length pipelines (homomorphic image under len); CFG must-pass for guards; float-taint; promotion table')
 ASSUMPTIONS = ["numpy.promote_types table for float x integer types (documented)", "h5py dataset slicing returns rows [a, b)"]
 FILES = ["python/digital_rf/digital_rf_hdf5.py", "python/digital_rf/digital_metadata.py"]
